@@ -33,6 +33,8 @@ pub struct World {
     pub height_at_init: int,            // best height known when we last locked the table (payment initiation)
     pub height: int,                    // best height known to the block watcher
     pub height_read: int,               // last value returned to us by current_height()
+    pub last_polled: int,               // blockheight of the last successful getinfo reply
+    pub height_told: int,               // max of all heights the block watcher has been told so far
     pub now_ns: nat,                    // monotone clock
     pub wait_started_ns: nat,           // when the stored state was read (start of the MPP wait)
     pub slept_ns: nat,                  // duration of the last completed sleep()
@@ -62,6 +64,10 @@ pub open spec fn max0(x: int) -> int { if x > 0 { x } else { 0 } }
 #[verifier::external_body]
 pub proof fn ghost_unlock(tracked w: &mut World)
     ensures *final(w) == (World { lock_held: false, ..*old(w) })
+{ unimplemented!() }
+#[verifier::external_body]
+pub proof fn ghost_told(tracked w: &mut World, n: u32)
+    ensures *final(w) == (World { height_told: if n as int > old(w).height_told { n as int } else { old(w).height_told }, ..*old(w) })
 { unimplemented!() }
 #[verifier::external_body]
 pub proof fn ghost_set_resolved(tracked w: &mut World, v: RespAbs)
@@ -116,7 +122,7 @@ pub open spec fn rely_env(a: World, b: World) -> bool {
     // ours alone
     &&& b.released == a.released && b.resolved == a.resolved && b.lock_held == a.lock_held
     &&& b.received_read == a.received_read && b.min_expiry_read == a.min_expiry_read && b.height_at_init == a.height_at_init
-    &&& b.height_read == a.height_read && b.wait_started_ns == a.wait_started_ns
+    &&& b.height_read == a.height_read && b.height_told >= a.height_told && b.last_polled == a.last_polled && b.wait_started_ns == a.wait_started_ns
     &&& b.slept_ns == a.slept_ns && b.rpc_under_lock == a.rpc_under_lock
     &&& b.pay_running == a.pay_running && b.attempted == a.attempted
     // monotone environment
